@@ -19,10 +19,21 @@ Import ListNotations.
 Open Scope list_scope.
 
 (* ------------------------------------------------------------------ the report as a writer *)
-Inductive mkind := KError | KWarning | KNote.
-Definition report := list mkind.                       (* kinds of the top-level messages, in the order reported *)
-Definition is_error (k : mkind) : bool := match k with KError => true | _ => false end.
-Definition has_error (r : report) : bool := existsb is_error r.          (* Report::stop_at_errors = Err *)
+(* A top-level message is what Report::message stores: the diagnostic wrapped in the parents that were open when it was
+   reported, so its KIND is the kind of the OUTERMOST parent.  Parents are pushed as Error (push_parent) or as Note
+   (push_parent_note / push_parent_short_note); an error reported while the outermost parent is a Note is therefore stored
+   as a top-level NOTE carrying the error inside (src/asm/resolver/eval_asm.rs: `match attempted: ...` around an asm block
+   that substitutes a local and is evaluated outside any instruction / data / function context). *)
+Inductive mkind := KError | KWarning | KNote | KNoteWithError.
+Definition report := list mkind.                       (* the top-level messages, in the order reported *)
+Definition is_top_error (k : mkind) : bool := match k with KError => true | _ => false end.
+Definition carries_error (k : mkind) : bool := match k with KError | KNoteWithError => true | _ => false end.
+(* Report::stop_at_errors looks at the kind of the top-level messages only *)
+Definition has_top_error (r : report) : bool := existsb is_top_error r.
+(* what the reader of the printed report sees: an `error:` line at some depth *)
+Definition has_error (r : report) : bool := existsb carries_error r.
+(* every message that carries an error IS a top-level Error: then stop_at_errors sees all of them *)
+Definition well_topped (r : report) : bool := forallb (fun k => implb (carries_error k) (is_top_error k)) r.
 Definition nonempty (r : report) : bool := match r with [] => false | _ => true end.   (* Report::has_errors: len != 0 *)
 
 (* ------------------------------------------------------------------ the calls of `assemble` *)
@@ -107,7 +118,7 @@ Variable loop_done : St -> bool.                                (* the `break` c
 
 Definition step_sem (k : pkind) (s : St) (r : report) : option St * report :=
   match k with
-  | PStopAtErrors => (if has_error r then None else Some s, [])
+  | PStopAtErrors => (if has_top_error r then None else Some s, [])
   | _ => sem k s r
   end.
 
@@ -288,8 +299,10 @@ Open Scope string_scope.
 Definition phase_obligations : list (string * okind * option pkind * string * string) := [
   ("G0", OWriter, None, "src/diagn/report.rs :: impl Report",
    "messages are only ever pushed (message, message_with_parents_dedup, push_multiple); no method removes or rewrites one: the report is a writer [also a table obligation: report_message_ops]");
-  ("G1", OWriter, None, "src/diagn/report.rs :: wrap_in_parents / push_multiple / instruction.rs :: resolve_encoding, eval_fn.rs, data_block.rs, iter.rs",
-   "an error reported under parents becomes a top-level message of kind Error: the OUTERMOST parent is always pushed with push_parent (kind Error); the Note parents (`within ...`, `match attempted`) are only pushed below one");
+  ("G1", OWriter, None, "src/diagn/report.rs :: wrap_in_parents / push_multiple; resolver/instruction.rs :: resolve_encoding, eval_fn.rs, data_block.rs, iter.rs, eval_asm.rs",
+   "the kind of a top-level message is the kind of the OUTERMOST parent open when it was reported.  Under resolve_encoding, eval_fn, data_block, iter the outermost parent is pushed with push_parent (Error).  NOT so in eval_asm.rs: an asm block that substitutes a local pushes the Note `match attempted` first, so in a constant / #if / #res / #addr / #align / #assert context its errors are stored as top-level Notes carrying the error (KNoteWithError): Report::stop_at_errors does not see them");
+  ("T1", OWriter, None, "src/asm/resolver/eval_asm.rs :: eval_asm (maybe_no_matches?, maybe_encodings?, `return Err(())` when !can_guess); resolver/assert.rs; resolver/*.rs `did not converge`; matcher/mod.rs :: match_all",
+   "TOP ON CONTINUE: a phase that returns Ok has pushed errors only as top-level Errors.  The push-and-continue sites (assertion failed, did not converge, no match accumulation, unused define) report with an empty parent stack or under an Error parent; the Note-wrapped errors of eval_asm are always followed by Err(()) out of the phase.  Without this the stop_at_errors()? before the output is built would not be enough (Props/C03.v: C03_note_wrapped_needs_top_on_continue)");
   ("L1", OLoud, Some PParse, "src/asm/parser/mod.rs :: parse_many_and_resolve_includes, parse_and_resolve_includes, parse_line and src/asm/parser/*.rs, src/syntax/walker.rs :: expect*",
    "Err(()) only after report.error_span (walker.expect*, directive parsers) or after FileServer::get_handle / get_bytes failed (obligation FS1)");
   ("L2", OLoud, Some PDeclsInit, "src/asm/decls/mod.rs :: init; src/util/symbol_manager.rs :: declare",
